@@ -539,3 +539,4 @@ Qed.
 
 Lemma permitting_ok_true : permitting_ok = true. Proof. vm_compute. reflexivity. Qed.
 Lemma issued_ok_true : issued_ok = true. Proof. vm_compute. reflexivity. Qed.
+Lemma guards_ok_true : guards_ok = true. Proof. vm_compute. reflexivity. Qed.
